@@ -1,16 +1,102 @@
 open M
 open Zutil
 let z = z_of_string
+let nat s = nat_of_int (int_of_string s)
 let dec_result = function
   | None -> "fail"
   | Some (v, rest) -> Printf.sprintf "ok %s %d" (string_of_z v) (List.length rest)
 let enc_result = function None -> "fail" | Some bs -> hex_of_bytes bs
+let split c s = if s = "-" then [] else String.split_on_char c s
+
+(* items:  B:<hex>  |  K:<req>:<ws>:<n>/<v>,...   separated by ';' *)
+let parse_item s =
+  match String.split_on_char ':' s with
+  | ["B"; h] -> IBytes (bytes_of_hex h)
+  | ["K"; req; ws; puts] ->
+    let ps = List.map (fun p -> match String.split_on_char '/' p with
+      | [n; v] -> (z n, z v) | _ -> failwith "put") (split ',' puts) in
+    IBlock (z req, ws = "1", ps)
+  | _ -> failwith ("item " ^ s)
+let parse_shape s =
+  match String.split_on_char ':' s with
+  | ["B"; n] -> SBytes (nat n)
+  | ["K"; ws; ns] -> SBlock (ws = "1", List.map z (split ',' ns))
+  | _ -> failwith ("shape " ^ s)
+let got_text = function
+  | GBytes bs -> "B:" ^ hex_of_bytes bs
+  | GBlock (sz, vals) ->
+    "K:" ^ (match sz with Some s -> string_of_z s | None -> "n") ^ ":" ^
+    (if vals = [] then "-" else String.concat "," (List.map string_of_z vals))
+
+(* ops: b0 b1 l<n>/<v> separated by ',' *)
+let parse_op s =
+  if s = "b0" then OBit false else if s = "b1" then OBit true
+  else match String.split_on_char '/' (String.sub s 1 (String.length s - 1)) with
+    | [n; v] -> OLsb (nat n, z v) | _ -> failwith ("op " ^ s)
+let parse_rop s = if s = "b" then RBit else RLsb (nat (String.sub s 1 (String.length s - 1)))
+let vals_text vs = if vs = [] then "-" else String.concat "," (List.map string_of_z vs)
+let bits_text bs = String.concat "" (List.map (fun b -> if b then "1" else "0") bs)
+
+(* generic: start, then values for rops, then `extra` single bits *)
+let dec_generic start next rops extra bs =
+  match start bs with
+  | None -> "fail"
+  | Some (st, rest) ->
+    let (vals, st1) = read_ops next rops st in
+    let (xb, _) = read_n next (nat_of_int extra) st1 in
+    Printf.sprintf "ok %s x%s %d" (vals_text vals) (bits_text xb) (List.length rest)
+
+let pclamp = clamp_probability
+let pupd = update_probability
+
 let () = run_driver (function
   | ["vu"; _w; v] -> enc_result (enc_varint_u (z v))
   | ["vs"; w; v] -> enc_result (enc_varint_s (z w) (z v))
   | ["dvu"; w; h] -> dec_result (dec_varint_u (z w) (bytes_of_hex h))
   | ["dvs"; w; h] -> dec_result (dec_varint_s (z w) (bytes_of_hex h))
-  | ["le"; n; v] -> hex_of_bytes (enc_le (nat_of_int (int_of_string n)) (z v))
-  | ["dle"; n; h] -> dec_result (dec_le (nat_of_int (int_of_string n)) (bytes_of_hex h))
+  | ["le"; n; v] -> hex_of_bytes (enc_le (nat n) (z v))
+  | ["dle"; n; h] -> dec_result (dec_le (nat n) (bytes_of_hex h))
+  | ["bs"; its] -> enc_result (enc_items (List.map parse_item (split ';' its)))
+  | ["dbs"; ver; shp; h] ->
+    (match dec_items (z ver) (List.map parse_shape (split ';' shp)) (bytes_of_hex h) with
+     | None -> "fail"
+     | Some (gots, rest) ->
+       Printf.sprintf "ok %s %d" (if gots = [] then "-" else String.concat ";" (List.map got_text gots)) (List.length rest))
+  | ["ransbit"; ops] -> enc_result (ransbit_encode (flatten (List.map parse_op (split ',' ops))))
+  | ["dransbit"; ver; rops; extra; h] ->
+    dec_generic (ransbit_start (z ver)) ransbit_next (List.map parse_rop (split ',' rops)) (int_of_string extra) (bytes_of_hex h)
+  | ["adaptive"; ops] -> enc_result (adaptive_encode pclamp pupd d_half (flatten (List.map parse_op (split ',' ops))))
+  | ["dadaptive"; _ver; rops; extra; h] ->
+    dec_generic (adaptive_start d_half) (adaptive_next pclamp pupd) (List.map parse_rop (split ',' rops)) (int_of_string extra) (bytes_of_hex h)
+  | ["direct"; ops] -> enc_result (direct_encode (flatten (List.map parse_op (split ',' ops))))
+  | ["ddirect"; _ver; rops; extra; h] ->
+    (match direct_start (bytes_of_hex h) with
+     | None -> "fail"
+     | Some (st, rest) ->
+       (* DecodeLeastSignificantBits32 may fail: the harness then prints F and stops reading values *)
+       let rec go rops st acc =
+         match rops with
+         | [] -> (List.rev acc, st)
+         | RBit :: r -> let (b, st1) = direct_next st in go r st1 ((if b then "1" else "0") :: acc)
+         | RLsb n :: r ->
+           (match direct_lsb n st with
+            | None -> (List.rev ("F" :: acc), st)
+            | Some (v, st1) -> go r st1 (string_of_z v :: acc)) in
+       let rops = List.map parse_rop (split ',' rops) in
+       let (vals, st1) = go rops st [] in
+       let (xb, _) = read_n direct_next (nat_of_int (int_of_string extra)) st1 in
+       Printf.sprintf "ok %s x%s %d" (if vals = [] then "-" else String.concat "," vals) (bits_text xb) (List.length rest))
+  | ["folded"; ops] -> enc_result (folded_encode ransbit_encode (List.map parse_op (split ',' ops)))
+  | ["dfolded"; ver; rops; extra; h] ->
+    (match folded_start (ransbit_start (z ver)) (bytes_of_hex h) with
+     | None -> "fail"
+     | Some (sts, rest) ->
+       (match folded_read ransbit_next (List.map parse_rop (split ',' rops)) sts with
+        | None -> "MODEL-INTERNAL"
+        | Some (vals, sts1) ->
+          let rec xs k sts acc = if k = 0 then List.rev acc else
+            (match folded_bit ransbit_next (nat_of_int 32) sts with
+             | Some (b, s2) -> xs (k - 1) s2 (b :: acc) | None -> List.rev acc) in
+          Printf.sprintf "ok %s x%s %d" (vals_text vals) (bits_text (xs (int_of_string extra) sts1 [])) (List.length rest)))
   | k :: _ -> "UNKNOWN-KIND " ^ k
   | [] -> "EMPTY")
